@@ -121,6 +121,11 @@ def run(ctx):
             pred_ok = False
             if st_ok and start == 0:
                 pred_ok = ca == ("index", cents, mk("Sub", ("enum_idx", cents), const(1)))
+                if not pred_ok and ca[0] == "loopvar":
+                    # the predecessor carried in a local over a loop that visits every centroid: seeded with the first centroid (the
+                    # first iteration cannot select a segment: the left-tail test has just failed on the same comparison) and replaced
+                    # by the current centroid in every iteration; no `i - 1` read, hence no hand-over obligation
+                    pred_ok = tb.loop_init(ca[1], ca[2]) == first and tb.loop_update(ca[1], ca[2]) == cb
             elif st_ok and ca[0] == "loopvar":
                 # predecessor carried in a local: seeded with centroids[start-1], replaced by the current centroid in every iteration
                 pred_ok = tb.loop_init(ca[1], ca[2]) == ("index", cents, const(start - 1)) and tb.loop_update(ca[1], ca[2]) == cb
